@@ -189,3 +189,22 @@ def run(ctx):
                               f"computed from the cost's definition over the admissible inner intervals is {want}",
                               {"n": n, "p": p, "m": m, "X": Xn.tolist(), "candidate": [s, e]}, {"what": "scores-table-vs-definition", "user_cost": True})
                 break
+    # ---- exhaustive grid of the inner-candidate enumeration: make_anomaly_intervals(s, e, m) against Model/Cbs.anomaly_intervals (same order) ----
+    from skchange.anomaly_detectors.circular_binseg import make_anomaly_intervals
+    acases, ameta = [], []
+    for s_ in range(0, 3):
+        for ln_ in range(0, 13 if ctx.quick() else 22):
+            for m_ in range(1, 6):
+                a_, z_ = make_anomaly_intervals(s_, s_ + ln_, m_)
+                impl = [(int(x), int(y)) for x, y in zip(a_, z_)]
+                acases.append(f"({s_}%nat, {s_ + ln_}%nat, {m_}%nat, {pairs_nat(impl)})")
+                ameta.append({"interval": [s_, s_ + ln_], "m": m_, "impl": impl})
+                ctx.case({"agrid": [s_, ln_, m_]}, nontrivial=len(impl) > 0)
+    AH = HEADER + ("\nDefinition ai_case := (nat * nat * nat * list (nat * nat))%type.\n"
+                   "Definition ai_ok (c : ai_case) : bool := let '(s, e, m, impl) := c in\n"
+                   "  let ivs := anomaly_intervals s e m in (length ivs =? length impl)%nat && forallb (fun xy => pair_eqb (fst xy) (snd xy)) (combine ivs impl).")
+    for i in coq_bad_cases(ctx.cid, AH, "ai_case", "ai_ok", acases, shard=400, tag="agrid")[:10]:
+        g = ameta[i]
+        ctx.violation(f"make_anomaly_intervals{tuple(g['interval']) + (g['m'],)} = {g['impl']} is not the list of inner intervals strictly inside the candidate with length >= m "
+                      f"and >= m surrounding samples", g, {"what": "candidate-enumeration"})
+    ctx.notes["candidate_grid"] = f"exhaustive: start 0..2, length 0..{12 if ctx.quick() else 21}, min_segment_length 1..5: {len(acases)} candidates"
